@@ -184,6 +184,9 @@ fn c16_raw() -> Vec<(String, String)> {
     add("raw_except2", "#[logos(utf8 = false)] enum T { #[regex(b\"=[^,\\n]+\")] A }");
     add("raw_except2b", "#[logos(utf8 = false)] enum T { #[regex(b\"q[^\\x00\\xff]z\")] A, #[regex(b\"[^ay][0-9]\")] B }");
     add("raw_except3", "#[logos(utf8 = false)] enum T { #[regex(b\"=[^,;\\n]+\")] A, #[regex(b\"'[^'\\\\]'\")] B }");
+    add("raw_stray_types", "#[logos(type A = u8, type B = u16, type C = u32, type D = u64)] enum T { #[token(\"a\")] X }");
+    add("raw_stray_types2", "#[logos(type A = u8)] #[logos(type B = u16, type C = u32)] enum T<Q> { #[token(\"a\")] X(Q) }");
+    add("raw_dup_items", "#[logos(extras = u8, extras = u16, error = E, error = F, utf8 = false, utf8 = true)] enum T { #[token(\"a\")] X, #[token(\"a\")] Y, #[regex(\"a\")] Z }");
     add("raw_extras_error", "#[logos(extras = Vec<u8>, error = E)] #[logos(skip \" +\")] enum T { #[regex(\"[a-z]+\", cb)] W, #[token(\"=\")] Eq }");
     add("raw_crate", "#[logos(crate = my::logos)] enum T { #[token(\"a\")] A, #[token(\"b\")] B }");
     v
@@ -545,6 +548,8 @@ pub fn c18_skip_cases() -> Vec<(String, Vec<String>)> {
         vec!["skip \"a\"", "skip \"b\"", "skip(\"[ab]c\")", "error = E"],
         vec!["skip(\"k\", ignore(case))", "skip(\"K\", priority = 9)", "subpattern d = \"[0-9]\"", "skip(\"(?&d)+\")"],
         vec!["skip(\"rem[a-z]\", ignore(case))", "skip(\"#[a-z]\")", "skip \" +\"", "skip(\"Q\", priority = 8)"],
+        vec!["skip(\"[a-z]+#\", ignore(case))", "skip(\"[a-z]+#\", priority = 20)", "skip \" +\""],
+        vec!["skip(\"x[a-z]\", priority = 9, ignore(case))", "skip(\"x[a-z]\")", "skip(\"X[a-z]\", priority = 5)", "extras = u8"],
         vec!["skip(\"[0-9]x\", ignore(case), priority = 3)", "skip(\"0[a-z]\", priority = 1)", "extras = u8", "skip(\"é\", callback = |_| Skip)"],
         vec!["subpattern d = b\"[\\x80-\\xFF]\"", "utf8 = false", "skip(\"(?&d)+\")", "extras = u8"],
         vec!["utf8 = false", "subpattern d = \"(?-u:\\xff)\"", "error = E", "skip(\"x(?&d)\")"],
@@ -577,10 +582,21 @@ pub fn c18_generic_cases() -> Vec<(String, Vec<String>)> {
         vec!["type T = &'a str", "lifetime = 'a", "extras = u8", "skip \" \""],
         vec!["type T = u8", "type U = &'s str", "error = E"],
         vec!["lifetime = 'a", "extras = &'a str", "type T = Vec<&'a str>"],
+        // no lifetime parameter on the enum: the lifetimes inside the concrete type are the user's
+        vec!["type T = &'static str", "lifetime = none"],
+        vec!["type T = &'static str", "lifetime = none", "extras = u8"],
+        vec!["type T = Box<&'static [u8]>", "lifetime = none", "utf8 = false", "error = E"],
+        vec!["type T = u8", "lifetime = none", "skip \" \""],
     ];
     let mut cases = vec![];
     for set in sets {
-        let generics = if set.iter().any(|x| x.starts_with("type U")) { "<'s, T, U>" } else { "<'a, T>" };
+        let generics = if set.iter().any(|x| x.starts_with("type U")) {
+            "<'s, T, U>"
+        } else if set.contains(&"lifetime = none") {
+            "<T>"
+        } else {
+            "<'a, T>"
+        };
         let body = if generics.contains('U') { "#[regex(\"a+\", cb)] A(T), #[regex(\"b+\")] B(U)" } else { "#[regex(\"a+\")] A(T), #[token(\"b\")] B" };
         let sources: Vec<String> = permutations(&set).into_iter().map(|p| format!("#[logos({})] enum Tok{generics} {{ {body} }}", p.join(", "))).collect();
         cases.push((format!("generic enum items {set:?}"), sources));
@@ -776,7 +792,7 @@ pub fn pattern_frags() -> Vec<Frag> {
     vec![
         f("a"), fr("a*", "nullable"), fr("", "nullable"), fr("a?b?", "nullable"), fr("(?:)", "nullable"), fr("$", "nullable"), fr("(?m:^)", "nullable"),
         fr("(?-u:\\\\b)a", "start look-behind"), fr("^a", "start look-behind"), fr("(?m:^)a", "start look-behind"), fr("\\\\bx", "unsupported unicode word boundary"),
-        fr("x\\\\b", "unsupported unicode word boundary"), fr("a(?=b)", "unsupported look-ahead group"), fr("(a)\\\\1", "unsupported back-reference"),
+        fr("x\\\\b", "unsupported unicode word boundary"), fr("a(?=b)", "unsupported look-ahead group"), fr("(a)\\\\1", "unsupported back-reference"), fr("(a+)-\\\\1", "unsupported back-reference"), fr("a\\\\7", "unsupported back-reference"), fr("a\\\\0", "parse error"), fr("a\\\\8", "parse error"),
         fr(".*", "nullable"), fr("a.*", "greedy dot"), fr("(a.*)", "greedy dot"), fr("a.+", "greedy dot"), fr("a(.*b)?", "greedy dot"), fr("(a.+)+b", "greedy dot"),
         fr("a[^\\\\n]*", "greedy dot"), fr("a(?s:.)*", "greedy dot"), fr("a(?:.*)b", "greedy dot"), fr("(?:a|b.*)c", "greedy dot"), fr("a(?:.*){2}", "greedy dot"), fr("a.{2,}", "greedy dot"), fr("[^\\\\n]{3,}b", "greedy dot"), fr("a(?s:.){2,}", "greedy dot"), fr("a(.{5,}b)?", "greedy dot"), fr("(.){1,}x", "greedy dot"), f("a.{2,}?b"), f("a.{2,9}"),
         f("a.*?b"), f("a.+?b"), f("a.{0,5}"), fr("(?&undef)", "undefined subpattern"), fr("a(?&undef)b", "undefined subpattern"), fr("[", "parse error"),
@@ -841,6 +857,14 @@ pub fn c19_cases(tier: Tier) -> Vec<C19Case> {
         push("regex pattern allow_greedy".into(), format!("enum T {{ #[regex(\"{}\", allow_greedy = true)] A }}", p.text), p.must_reject.filter(|w| *w != "greedy dot"));
         push("skip pattern".into(), format!("#[logos(skip \"{}\")] enum T {{ #[token(\"z\")] Z }}", p.text), p.must_reject);
         push("subpattern body".into(), format!("#[logos(subpattern s = \"{}\")] enum T {{ #[regex(\"x(?&s)\")] A }}", p.text), p.must_reject.filter(|w| *w != "nullable" && *w != "start look-behind"));
+        // the same sources as BYTE-STRING literals of a byte lexer (Unicode mode off: \b is the ASCII
+        // boundary there; sources that are not plain ASCII are left out, a byte string cannot hold them)
+        if p.text.is_ascii() {
+            let mr = p.must_reject.filter(|w| *w != "unsupported unicode word boundary");
+            push("regex byte-string pattern".into(), format!("#[logos(utf8 = false)] enum T {{ #[regex(b\"{}\")] A }}", p.text), mr);
+            push("skip byte-string pattern".into(), format!("#[logos(utf8 = false)] #[logos(skip(b\"{}\"))] enum T {{ #[token(\"z\")] Z }}", p.text), mr);
+            push("byte-string subpattern body".into(), format!("#[logos(utf8 = false)] #[logos(subpattern s = b\"{}\")] enum T {{ #[regex(\"x(?&s)\")] A }}", p.text), mr.filter(|w| *w != "nullable" && *w != "start look-behind"));
+        }
     }
     for l in &lf {
         push("logos item".into(), format!("#[logos({})] enum T {{ #[token(\"z\")] Z }}", l.text), l.must_reject);
@@ -1121,7 +1145,7 @@ pub fn probe_emit(a: &Args) {
     use std::fmt::Write as _;
     let dir = a.out.clone();
     let all = c19_cases(a.tier);
-    let keep_desc = ["token args", "regex args", "skip args", "bare attr", "attr = lit", "enum-level bare attr", "regex pattern", "regex pattern allow_greedy", "skip pattern", "subpattern body", "logos item", "variant x generics", "variant x generics (regex cb)", "variant no attr", "empty enum", "no patterns", "only skip", "def args x variant"];
+    let keep_desc = ["token args", "regex args", "skip args", "bare attr", "attr = lit", "enum-level bare attr", "regex pattern", "regex pattern allow_greedy", "skip pattern", "subpattern body", "regex byte-string pattern", "skip byte-string pattern", "byte-string subpattern body", "logos item", "variant x generics", "variant x generics (regex cb)", "variant no attr", "empty enum", "no patterns", "only skip", "def args x variant"];
     let mut cases: Vec<C19Case> = all.iter().filter(|c| keep_desc.contains(&c.desc.as_str())).cloned().collect();
     // same-key pairs (the ones whose handling involves a second span: "previous definition here", Span::join)
     let key = |t: &str| t.split(|c: char| !c.is_alphanumeric() && c != '_').next().unwrap_or("").to_string();
